@@ -24,9 +24,10 @@ RULE = ("v4 vectors built from own tables; a case is one accepted vector string;
 
 
 def check_vector(P, vec, variants=False, channels=False):
+    P.remember({"vector": vec})
     L = lib()
     P.evaluations += 1
-    ok, o = obs.call(L.CVSS4, vec)
+    ok, o = obs.call(obs.construct, L.CVSS4, vec)
     if not ok:
         P.violation("construct", "C02:exception:" + obs.exc_name(o), {"vector": vec}, error=repr(o))
         return None
